@@ -132,13 +132,6 @@ Definition c05_check (c : c05_case) : bool :=
 
 (* ---------- the oracle: the property on the implementation's observation ---------- *)
 
-Fixpoint subseqb (a b : list event) : bool :=
-  match a, b with
-  | [], _ => true
-  | _ :: _, [] => false
-  | x :: a', y :: b' => if ev_eqb x y then subseqb a' b' else subseqb a b'
-  end.
-
 (* the implementation's own successful writes, as events, in slot order *)
 Definition sigma_of (ls : list label) : list event :=
   flat_map (fun lb => match lb with
@@ -148,7 +141,7 @@ Definition sigma_of (ls : list label) : list event :=
 
 (* C05_prefix / C05_complete on one observation. `s` is only used for the schedule's bookkeeping
    (which subscription is watcher i, and how many events the hub had fanned out before it). *)
-Definition obs_oracle (s : sys) (sigma : list event) (drops : N) (o : wobs) : option N :=
+Definition obs_oracle (s : sys) (sigma : list event) (o : wobs) : option N :=
   match nth_error (s_ws s) (o_w o), o_got o with
   | Some w, Some g0 =>
       let g := gexpand g0 in
@@ -160,8 +153,7 @@ Definition obs_oracle (s : sys) (sigma : list event) (drops : N) (o : wobs) : op
            | _, _ => None
            end
          else None)
-      else if (0 <? drops) && subseqb g idl then Some 1      (* finding C05-F1: stream continued after a dropped batch *)
-      else Some 0
+      else Some 0       (* duplicate, reordering, wrong content, or a stream that continued past an event it skipped *)
   | _, _ => None
   end.
 
@@ -172,19 +164,19 @@ Definition sg_push (sg : list event) (lb : label) : list event :=
   | _ => sg
   end.
 
-Fixpoint run_oracle (pa : params) (steps : list rstep) (s : sys) (sg : list event) (drops : N) : option N :=
+Fixpoint run_oracle (pa : params) (steps : list rstep) (s : sys) (sg : list event) : option N :=
   match steps with
   | [] => None
-  | RL lb :: t => run_oracle pa t (step pa s lb) (sg_push sg lb) drops
+  | RL lb :: t => run_oracle pa t (step pa s lb) (sg_push sg lb)
   | RObs o :: t =>
-      match obs_oracle s (frev sg) drops o with
+      match obs_oracle s (frev sg) o with
       | Some code => Some code
-      | None => run_oracle pa t s sg drops
+      | None => run_oracle pa t s sg
       end
-  | RSubs _ :: t => run_oracle pa t s sg drops
-  | RDrops n :: t => run_oracle pa t s sg n
-  | RBulk _ _ _ _ _ :: t => run_oracle pa t s sg drops
-  | RRep _ _ :: t => run_oracle pa t s sg drops
+  | RSubs _ :: t => run_oracle pa t s sg
+  | RDrops _ :: t => run_oracle pa t s sg
+  | RBulk _ _ _ _ _ :: t => run_oracle pa t s sg
+  | RRep _ _ :: t => run_oracle pa t s sg
   end.
 
 (* FindEvents against the window specification, stated on the observed result *)
@@ -192,5 +184,5 @@ Definition c05_oracle (c : c05_case) : option N :=
   match c with
   | KRing l revs sr obs =>
       if (0 <? l) then ok_if (ring_obs_eqb (obs_of_find (find_spec l (map ring_ev revs) sr)) obs) else None
-  | KRun pa l c0 steps => run_oracle pa (expand_steps steps) (init l c0) [] 0
+  | KRun pa l c0 steps => run_oracle pa (expand_steps steps) (init l c0) []
   end.
